@@ -532,9 +532,8 @@ func (r *Report) ArgHas(key, fnKey, callee string, idx int, minSites int, atoms 
 		t := Render(v)
 		w.SitesExamined++
 		missing := []string{}
-		at := t.Atoms()
 		for _, a := range atoms {
-			if !atomsHave(at, a) {
+			if !t.Has(a) {
 				missing = append(missing, a)
 			}
 		}
@@ -655,11 +654,11 @@ func sameCanon(a, b ssa.Value) bool {
 	if a == b {
 		return true
 	}
-	// two loads of the same address (field of same base / same alloc) or two consts of equal value
+	// two loads of the same address with no intervening store
 	ua, ok1 := a.(*ssa.UnOp)
 	ub, ok2 := b.(*ssa.UnOp)
 	if ok1 && ok2 && ua.Op == token.MUL && ub.Op == token.MUL {
-		return sameAddr(ua.X, ub.X)
+		return sameAddr(ua.X, ub.X) && !storeBetween(ua, ub) && !storeBetween(ub, ua)
 	}
 	ca, ok1 := a.(*ssa.Const)
 	cb, ok2 := b.(*ssa.Const)
@@ -671,6 +670,70 @@ func sameCanon(a, b ssa.Value) bool {
 	fb, ok2 := b.(*ssa.Field)
 	if ok1 && ok2 && fa.Field == fb.Field {
 		return sameCanon(canonValue(fa.X), canonValue(fb.X))
+	}
+	// extracts of the same tuple
+	ea, ok1 := a.(*ssa.Extract)
+	eb, ok2 := b.(*ssa.Extract)
+	if ok1 && ok2 && ea.Index == eb.Index && ea.Tuple == eb.Tuple {
+		return true
+	}
+	return false
+}
+
+// storeBetween: some store to the address loaded by l1 can execute after l1 and before l2.
+func storeBetween(l1, l2 *ssa.UnOp) bool {
+	fn := l1.Parent()
+	for _, b := range fn.Blocks {
+		for _, in := range b.Instrs {
+			st, ok := in.(*ssa.Store)
+			if !ok || !(sameAddr(st.Addr, l1.X) || addrPrefix(st.Addr, l1.X)) {
+				continue
+			}
+			// after l1?
+			after := false
+			if st.Block() == l1.Block() {
+				after = instrIndex(st) > instrIndex(l1)
+			}
+			if !after {
+				for _, s := range l1.Block().Succs {
+					if reachFrom(s, nil)[st.Block()] {
+						after = true
+					}
+				}
+			}
+			if !after {
+				continue
+			}
+			before := false
+			if st.Block() == l2.Block() {
+				before = instrIndex(st) < instrIndex(l2)
+			}
+			if !before {
+				for _, s := range st.Block().Succs {
+					if reachFrom(s, nil)[l2.Block()] {
+						before = true
+					}
+				}
+			}
+			if before {
+				return true
+			}
+		}
+	}
+	return false
+}
+
+// addrPrefix: a is the whole-struct address of which b is a field address (a store to the struct overwrites b).
+func addrPrefix(a, b ssa.Value) bool {
+	for i := 0; i < 6; i++ {
+		fb, ok := b.(*ssa.FieldAddr)
+		if !ok {
+			return false
+		}
+		if fb.X == a {
+			return true
+		}
+		b = fb.X
 	}
 	return false
 }
@@ -1488,4 +1551,37 @@ func (r *Report) ctorField(key, fnKey, field string, idx int) {
 	} else {
 		r.Bad(k, d, w.posOr(st.Pos(), fn), "stored value is "+clip(Render(st.Val).String(), 120))
 	}
+}
+
+// RetHas: every return of fn has result #idx rendering to a term containing atoms.
+func (r *Report) RetHas(key, fnKey string, idx int, atoms ...string) {
+	w := r.W
+	fn := w.Fn(fnKey)
+	d := fmt.Sprintf("every return of %s yields result #%d derived from {%s}", fnKey, idx, strings.Join(atoms, ", "))
+	k := fmt.Sprintf("%s|%s|ret#%d", key, fnKey, idx)
+	if fn == nil {
+		r.Unres(k, d, "function not found")
+		return
+	}
+	w.FuncsAnalysed[fn] = true
+	n := 0
+	for _, b := range fn.Blocks {
+		rt := returnOf(b)
+		if rt == nil || idx >= len(rt.Results) {
+			continue
+		}
+		n++
+		t := Render(rt.Results[idx])
+		for _, a := range atoms {
+			if !t.Has(a) {
+				r.Bad(k, d, w.posOr(rt.Pos(), fn), "missing "+a+" in "+clip(t.String(), 240))
+				return
+			}
+		}
+	}
+	if n == 0 {
+		r.Unres(k, d, "no return")
+		return
+	}
+	r.OK(k, d, w.FnPos(fn), fmt.Sprintf("%d return(s)", n))
 }
